@@ -113,6 +113,9 @@ func ReadJournal(path string) (idx int, label string, ok bool) {
 
 func (c *Ctx) Count(key string) { c.res.Counters[key]++ }
 
+// CounterValue reads a counter of this worker.
+func (c *Ctx) CounterValue(key string) int64 { return c.res.Counters[key] }
+
 func (c *Ctx) Add(key string, n int64) { c.res.Counters[key] += n }
 
 // Evals counts n executions of the code under test.
